@@ -59,6 +59,21 @@ Section DReads.
       + cbn [length]. lia.
   Qed.
 
+  (* ... and there are at most |segment| + 2 hops (the traversal's own iteration bound), whatever the nodes look like *)
+  Lemma hops_le_fuel fuel : forall node rem t, (traverse_from_hops BNH fuel node rem t <= fuel)%nat.
+  Proof.
+    induction fuel as [|f IH]; intros node rem t; [cbn; lia|].
+    cbn [traverse_from_hops].
+    destruct rem as [|r0 rtail]; [lia|].
+    destruct (get_node_type node) as [ty|e]; [|lia].
+    destruct ty; try lia.
+    - destruct (extract_key node) as [ck|e]; [|lia].
+      destruct (consume_common_prefix ck (r0 :: rtail)) as [[c cr] kr].
+      destruct cr as [|c0 cr']; [|lia].
+      destruct (get_node BNH (kv_second node) t) as [[n'|e] t1]; [specialize (IH n' kr t)|]; lia.
+    - destruct (get_node BNH (branch_child node r0) t) as [[n'|e] t1]; [specialize (IH n' rtail t)|]; lia.
+  Qed.
+
   (* the traversal depends on the store only at the keys it lists *)
   Lemma reads_only fuel : forall node tk rem m m' t t', on m t -> on m' t' ->
     (forall h, In h (traverse_from_reads BNH fuel node rem t) -> aget m' h = aget m h) ->
@@ -120,6 +135,12 @@ Section DReads.
     (length (traverse_from_reads BNH (traverse_fuel seg) raw seg (plain m r))
      <= traverse_from_hops BNH (traverse_fuel seg) raw seg (plain m r))%nat.
   Proof. apply reads_le_hops. Qed.
+
+  Theorem traverse_from_reads_bound m r raw seg :
+    (length (traverse_from_reads BNH (traverse_fuel seg) raw seg (plain m r)) <= S (S (length seg)))%nat.
+  Proof.
+    eapply Nat.le_trans; [apply reads_le_hops|]. apply (hops_le_fuel (traverse_fuel seg)).
+  Qed.
 
   Theorem traverse_from_reads_only m m' r r' raw seg :
     (forall h, In h (traverse_from_reads BNH (traverse_fuel seg) raw seg (plain m r)) -> aget m' h = aget m h) ->
